@@ -252,6 +252,69 @@ def _check_window(chk, r1, r2, r3, fname: str, side: str, err_name: str):
         raise AnalysisError(f"{fname}: the backward slice of the returned frame visited only {visited} definitions (expected the slicing pipeline)")
     r1.inst(f"{fi.key}|non-interference-slice")
     chk.note(f"{fname}: non-interference slice visited {visited} definitions; unbounded reads of the input in the slice: {sorted(flagged)}") if hasattr(chk, "note") else None
+    # R20.1d the max_days window is applied whenever max_days is given (0 included) and the requested limit is finite
+    import copy as _copy
+    inf_flag = "end_inf" if side == "baseline" else "start_inf"
+    md_sites = [st for st in cfg.stmts() if isinstance(st, ast.Assign) and isinstance(st.value, ast.BinOp) and isinstance(st.value.right, ast.Call)
+                and unparse(st.value.right.func) in ("timedelta", "datetime.timedelta", "pd.Timedelta") and any(k.arg == "days" and unparse(k.value) == "max_days" for k in st.value.right.keywords)]
+    r1.require(len(md_sites) == 1, f"{fi.key}|max_days-window-present", fi.where(), f"{fname}: expected exactly one `<limit> +/- timedelta(days=max_days)` window definition; found {len(md_sites)}")
+    for st in md_sites:
+        class _Truthy(ast.NodeTransformer):
+            """a bare `max_days` in a boolean position means `max_days is not None and max_days != 0`"""
+            def visit_BoolOp(self, n):
+                n.values = [self._t(self.visit(v)) for v in n.values]
+                return n
+
+            def visit_UnaryOp(self, n):
+                n.operand = self.visit(n.operand)
+                if isinstance(n.op, ast.Not):
+                    n.operand = self._t(n.operand)
+                return n
+
+            @staticmethod
+            def _t(v):
+                if isinstance(v, ast.Name) and v.id == "max_days":
+                    return ast.parse("(max_days is not None) and (max_days != 0)", mode="eval").body
+                return v
+
+        def atomizer(e):
+            z, neg = boolalg.strip_truthiness(e)
+            if isinstance(z, ast.Name) and z.id == inf_flag:
+                return ("inf", neg)
+            if isinstance(z, ast.Compare) and len(z.ops) == 1:
+                l, r_, o = unparse(z.left), unparse(z.comparators[0]), type(z.ops[0])
+                lim = pv.hard_param
+                if l == lim and r_ == "None" and o in (ast.Is, ast.IsNot, ast.Eq, ast.NotEq):
+                    return ("inf", neg != (o in (ast.IsNot, ast.NotEq)))
+                if l == "max_days" and r_ == "None" and o in (ast.Is, ast.IsNot, ast.Eq, ast.NotEq):
+                    return ("none", neg != (o in (ast.IsNot, ast.NotEq)))
+                if l == "max_days" and r_ in ("0", "0.0") and o in (ast.Eq, ast.NotEq):
+                    return ("zero", neg != (o is ast.NotEq))
+                if l == "max_days" and r_ in ("0", "0.0") and o in (ast.Gt, ast.LtE):
+                    return ("zero", neg != (o is ast.Gt))  # for the non-negative day counts the property speaks of: > 0 means != 0
+            return None
+        gs = []
+        for f_ in cfg.must_facts().get(id(st), frozenset()):
+            ts = cfg.stmt_of.get(f_.test_id)
+            if ts is None or isinstance(ts, (ast.For, ast.AsyncFor)):
+                continue
+            t = _Truthy().visit(_copy.deepcopy(cfg.tests[f_.test_id]))
+            t = _Truthy._t(t)
+            ast.fix_missing_locations(t)
+            try:
+                boolalg.truth_table(t, atomizer, ["inf", "none", "zero"])
+            except boolalg.Unrecognised:
+                continue
+            gs.append((t, f_.polarity))
+        ok = False
+        detail = None
+        if gs:
+            tt = boolalg.conj_table(gs, atomizer, ["inf", "none", "zero"])
+            detail = {k: v for k, v in tt.items()}
+            ok = all(tt[(i, n, z)] == ((not i) and (not n)) for i in (False, True) for n in (False, True) for z in (False, True) if not (n and z))
+        r1.require(ok, f"{fi.key}|max_days-window-applied-iff-given", fi.where(st),
+                   f"{fname}: `{unparse(st)[:70]}` must run exactly when the requested `{pv.hard_param}` is finite and max_days is not None (max_days = 0 included: a falsy test lets max_days=0 "
+                   f"return the whole history); path condition over (limit open, max_days is None, max_days == 0): {detail}", sample={"statement": unparse(st)[:80]})
     # no row source other than `data`
     for c in calls_in(fi.node):
         def _is_plain_list(recv, at):
